@@ -297,16 +297,10 @@ func (p *pinner) doPinRecursive(ctx context.Context, c cid.Cid, fetch bool, name
 	if err != nil {
 		return err
 	}
-	// Do not return immediately! Just remove the recursive pins for the current CID.
-	// This allows the process to continue and the pin to be re-added with a new name.
-	//
-	// TODO: remove this to support multiple pins per CID
-	if found {
-		_, err = p.removePinsForCid(ctx, c, ipfspinner.Recursive)
-		if err != nil {
-			return err
-		}
-	}
+	// Do not return immediately! The recursive pins for the current CID are
+	// removed below, once the fetch has succeeded, and the pin is re-added with
+	// the new name; a failed fetch leaves the existing pin untouched.
+	repin := found
 
 	dirtyBefore := p.dirty
 
@@ -337,7 +331,7 @@ func (p *pinner) doPinRecursive(ctx context.Context, c cid.Cid, fetch bool, name
 		if err != nil {
 			return err
 		}
-		if found {
+		if found && !repin {
 			return nil
 		}
 	}
@@ -349,6 +343,14 @@ func (p *pinner) doPinRecursive(ctx context.Context, c cid.Cid, fetch bool, name
 	}
 	if found {
 		_, err = p.removePinsForCid(ctx, c, ipfspinner.Direct)
+		if err != nil {
+			return err
+		}
+	}
+
+	// TODO: remove this to support multiple pins per CID
+	if repin {
+		_, err = p.removePinsForCid(ctx, c, ipfspinner.Recursive)
 		if err != nil {
 			return err
 		}
